@@ -61,3 +61,16 @@ ASSUMPTIONS = ["start states are addressed by index; bounds/validity of the star
 TRUSTED = ["extraction rewrite tables of units/C01.py, units/C17.py", "stubs in units/C01/inputs.c, units/C17/pathgeom.c", "CBMC 6.11 DFCC + minisat"]
 NOT_COVERED = ["THE SOLVE LOOPS OF THE ~45 GEOMETRIC AND MULTILEVEL PLANNERS: that every tree/roadmap edge is admitted only after checkMotion, that the reported path starts at a start state and ends in the goal region, status/flag consistency per planner, non-solution statuses adding no path (planner bodies are not under contract)",
                "PlannerInputStates::nextGoal (goal sampling with termination condition), ProblemDefinition::addSolutionPath flags (see C04 for the solution set), EIT*'s isValidAtResolution"]
+
+MISC_CPPS = ['src/ompl/base/src/Planner.cpp', 'src/ompl/base/goals/src/GoalRegion.cpp', 'src/ompl/geometric/src/PathGeometric.cpp']
+NATIVE = [
+    dict(name="c01_native_search", driver="native/misc_native.cpp", link_ompl=True, unit_cpps=MISC_CPPS, args=lambda tier, seed: ["c01", seed, 300 if tier == "quick" else 20000], timeout=900),
+]
+
+
+def replay(ur, scratch, seed):
+    """Search the real classes for a failing input (native/misc_native.cpp, mode c01)."""
+    from vf import native as N, cbmc as C
+    exe = N.build_driver("native/misc_native.cpp", scratch, link_ompl=True, unit_cpps=MISC_CPPS)
+    r = C.run_cmd([exe, "c01", str(seed), "5000"], 600, env=N.run_env())
+    return dict(found=(r["rc"] == 1), driver="native/misc_native.cpp", args=["c01", seed, 5000], link_ompl=True, unit_cpps=MISC_CPPS, output=r["out"][-2500:])
